@@ -25,6 +25,13 @@ pub struct State {
     pub attempts_seen: u64,
     pub failures_seen: u64,
     pub views_checked: u64,
+    /// (ca, parent) -> whether the CA had open requests for that parent
+    /// before the background task now running (then the synchronisation
+    /// sends those; otherwise it asks for the entitlements).
+    pub pending_before: BTreeMap<(String, String), bool>,
+    /// (ca, parent) -> the entitlement classes shown after the last check.
+    pub classes_shown: BTreeMap<(String, String), Value>,
+    pub entitlement_checks: u64,
 }
 
 pub fn start(r: &mut Runner) {
@@ -88,9 +95,17 @@ fn absorb_logs(r: &mut Runner) {
     }
 }
 
+fn inst_of(r: &Runner, ca: &str) -> usize {
+    r.model.cas.values().find(|c| c.name == ca).map(|c| c.inst).unwrap_or(0)
+}
+
 fn status_json(r: &Runner, ca: &str) -> Option<Value> {
+    let inst = inst_of(r, ca);
+    if !r.world.inst(inst).is_up() {
+        return None
+    }
     hooks::with_faults_suspended(|| {
-        let rt = r.world.inst(0).rt();
+        let rt = r.world.inst(inst).rt();
         let status = rt.ca_manager().get_ca_status(&handle(ca)).ok()?;
         serde_json::to_value(&status).ok()
     })
@@ -110,24 +125,25 @@ fn exchange_ok(exchange: &Value) -> Option<bool> {
 
 /// After every operation and every background task.
 pub fn observe(r: &mut Runner, when: &str) {
-    if r.dead.is_some() || !r.world.inst(0).is_up() {
+    if r.dead.is_some() {
         return
     }
     absorb_logs(r);
-    let cas: Vec<String> = r.model.cas.values().filter(|c| c.inst == 0)
-        .map(|c| c.name.clone()).collect();
-    for ca in cas {
+    let cas: Vec<(String, usize)> = r.model.cas.values()
+        .filter(|c| r.world.inst(c.inst).is_up())
+        .map(|c| (c.name.clone(), c.inst)).collect();
+    for (ca, ca_inst) in cas {
         let Some(status) = status_json(r, &ca) else { continue };
         r.ext.c19.views_checked += 1;
         let issues = hooks::with_faults_suspended(|| {
-            r.world.inst(0).rt().ca_manager().get_ca_issues(&handle(&ca)).ok()
+            r.world.inst(ca_inst).rt().ca_manager().get_ca_issues(&handle(&ca)).ok()
                 .and_then(|i| serde_json::to_value(&i).ok())
         });
         // Parents.
         let parents = status.get("parents").and_then(|p| p.as_object())
             .cloned().unwrap_or_default();
         let current_parents: Vec<String> = hooks::with_faults_suspended(|| {
-            r.world.inst(0).rt().ca_manager().get_ca(&handle(&ca)).ok()
+            r.world.inst(ca_inst).rt().ca_manager().get_ca(&handle(&ca)).ok()
                 .map(|c| c.parents().map(|p| p.to_string()).collect())
                 .unwrap_or_default()
         });
@@ -228,7 +244,7 @@ pub fn observe(r: &mut Runner, when: &str) {
         let children = status.get("children").and_then(|c| c.as_object())
             .cloned().unwrap_or_default();
         let current_children: Vec<String> = hooks::with_faults_suspended(|| {
-            r.world.inst(0).rt().ca_manager().get_ca(&handle(&ca)).ok()
+            r.world.inst(ca_inst).rt().ca_manager().get_ca(&handle(&ca)).ok()
                 .map(|c| c.as_ca_info().children.iter()
                     .map(|c| c.to_string()).collect())
                 .unwrap_or_default()
@@ -255,7 +271,7 @@ pub fn at_caught_up(r: &mut Runner) {
     }
     observe(r, "at quiescence");
     let cas: Vec<crate::model::MCa> = r.model.cas.values()
-        .filter(|c| c.inst == 0).cloned().collect();
+        .filter(|c| r.world.inst(c.inst).is_up()).cloned().collect();
     for mca in cas {
         let ca = mca.name.clone();
         let Some(status) = status_json(r, &ca) else { continue };
@@ -273,7 +289,10 @@ pub fn at_caught_up(r: &mut Runner) {
             shown.sort();
             let held: Option<Vec<(String, String)>>
                 = hooks::with_faults_suspended(|| {
-                    let rt = r.world.inst(0).rt();
+                    if !r.world.inst(mca.repo_inst).is_up() {
+                        return None
+                    }
+                    let rt = r.world.inst(mca.repo_inst).rt();
                     let details = rt.repo_manager().get_publisher_details(
                         PublisherHandle::from_str(&ca).ok()?
                     ).ok()?;
@@ -303,7 +322,9 @@ pub fn at_caught_up(r: &mut Runner) {
         }
         // The parent's record of this child.
         for (phandle, link) in &mca.parents {
-            if link.parent_ca == "ta" || link.parent_inst != 0 {
+            if link.parent_ca == "ta"
+                || !r.world.inst(link.parent_inst).is_up()
+            {
                 continue
             }
             // Only while the parent still has the child: removing it
@@ -353,8 +374,9 @@ pub fn at_caught_up(r: &mut Runner) {
 
 /// The CA is gone: so must be its status.
 pub fn after_delete(r: &mut Runner, ca: &str) {
-    let gone = hooks::with_faults_suspended(|| {
-        r.world.inst(0).rt().ca_manager().get_ca_status(&handle(ca)).is_err()
+    let inst = r.ext.c19_deleted_inst.take().unwrap_or(0);
+    let gone = !r.world.inst(inst).is_up() || hooks::with_faults_suspended(|| {
+        r.world.inst(inst).rt().ca_manager().get_ca_status(&handle(ca)).is_err()
     });
     r.ext.c19.repo_outcome.remove(ca);
     r.ext.c19.parent_outcome.retain(|k, _| k.0 != ca);
@@ -364,4 +386,167 @@ pub fn after_delete(r: &mut Runner, ca: &str) {
             format!("CA {ca} was deleted but still has a status")
         );
     }
+}
+
+
+//------------ Entitlements ---------------------------------------------------
+
+/// Before every background task: which CAs have open requests for which
+/// parent. A synchronisation of a CA with open requests sends those; one
+/// without asks the parent for the entitlements.
+pub fn before_step(r: &mut Runner) {
+    let cas: Vec<crate::model::MCa> = r.model.cas.values()
+        .filter(|c| r.world.inst(c.inst).is_up()).cloned().collect();
+    let mut pending = BTreeMap::new();
+    hooks::with_faults_suspended(|| {
+        for mca in &cas {
+            let rt = r.world.inst(mca.inst).rt();
+            let Ok(ca) = rt.ca_manager().get_ca(&handle(&mca.name)) else {
+                continue
+            };
+            for parent in ca.parents() {
+                pending.insert(
+                    (mca.name.clone(), parent.to_string()),
+                    ca.has_pending_requests(parent),
+                );
+            }
+        }
+    });
+    r.ext.c19.pending_before = pending;
+}
+
+fn classes_sorted(value: Option<&Value>) -> Value {
+    let mut list = value.and_then(|v| v.as_array()).cloned()
+        .unwrap_or_default();
+    list.sort_by_key(|c| {
+        c.get("class_name").map(|n| n.to_string()).unwrap_or_default()
+    });
+    Value::Array(list)
+}
+
+/// After a background task (`task` is its storage key): if it was a
+/// synchronisation with a parent that asked for the entitlements and
+/// succeeded, the status view must show exactly what that parent returns
+/// for this child; if it failed or sent requests, the entitlements shown
+/// must be the ones shown before.
+pub fn entitlements_after_task(r: &mut Runner, task: &str, ran_on: usize) {
+    if r.dead.is_some() {
+        return
+    }
+    let Some(name) = task.split_once('-').map(|x| x.1) else { return };
+    let Some(rest) = name.strip_prefix("sync_") else { return };
+    let Some((ca, parent)) = rest.split_once("_with_parent_") else { return };
+    let (ca, parent) = (ca.to_string(), parent.to_string());
+    let key = (ca.clone(), parent.clone());
+    let Some(mca) = r.model.cas.values().find(|c| c.name == ca).cloned()
+    else { return };
+    if mca.inst != ran_on {
+        // The parent's instance queues a synchronisation for every child
+        // whose entitlements it changes; for a child hosted elsewhere
+        // that task does nothing.
+        return
+    }
+    let Some(status) = status_json(r, &ca) else { return };
+    let shown = classes_sorted(
+        status.get("parents").and_then(|p| p.get(&parent))
+            .and_then(|p| p.get("classes"))
+    );
+    let before = r.ext.c19.classes_shown.get(&key).cloned();
+    let outcome = r.ext.c19.parent_outcome.get(&key).copied();
+    let had_pending = r.ext.c19.pending_before.get(&key).copied();
+    let has_parent = status.get("parents").and_then(|p| p.get(&parent))
+        .is_some();
+    if std::env::var_os("VERIF_DEBUG").is_some() {
+        eprintln!(
+            "--- c19 after {name}: outcome {outcome:?} had_pending \
+             {had_pending:?} shown {} exchange {:?}",
+            brief(&shown),
+            status.get("parents").and_then(|p| p.get(&parent))
+                .and_then(|p| p.get("last_exchange")).map(|e| e.to_string())
+        );
+    }
+    if !has_parent {
+        r.ext.c19.classes_shown.remove(&key);
+        return
+    }
+    match (outcome, had_pending) {
+        (Some(true), Some(false)) => {
+            // Asked for the entitlements and got them.
+            let Some(link) = mca.parents.get(&parent) else { return };
+            if link.parent_ca == "ta"
+                || !r.world.inst(link.parent_inst).is_up()
+            {
+                r.ext.c19.classes_shown.insert(key, shown);
+                return
+            }
+            let pinst = link.parent_inst;
+            r.world.inst(pinst).enter();
+            let expected = hooks::with_faults_suspended(|| {
+                let rt = r.world.inst(pinst).rt();
+                let pca = rt.ca_manager().get_ca(&handle(&link.parent_ca))
+                    .ok()?;
+                let child = rpki::ca::idexchange::ChildHandle::from_str(
+                    &link.child_handle
+                ).ok()?;
+                let resp = pca.list(&child, &rt.config().issuance_timing)
+                    .ok()?;
+                serde_json::to_value(resp.classes()).ok()
+            });
+            r.world.inst(ran_on).enter();
+            if let Some(expected) = expected {
+                let expected = classes_sorted(Some(&expected));
+                r.ext.c19.entitlement_checks += 1;
+                if expected != shown {
+                    r.violation(
+                        "C19", "entitlements_shown_differ",
+                        format!(
+                            "after task {name}: CA {ca} asked parent \
+                             {parent} for its entitlements and the \
+                             exchange succeeded; the parent returns {} \
+                             but the status view shows {}",
+                            brief(&expected), brief(&shown)
+                        )
+                    );
+                }
+            }
+        }
+        (Some(false), _) | (Some(true), Some(true)) => {
+            // A failed attempt, or one that only sent the open requests:
+            // the entitlements shown are still the ones last returned.
+            if let Some(before) = before {
+                r.ext.c19.entitlement_checks += 1;
+                if before != shown {
+                    r.violation(
+                        "C19", "entitlements_shown_changed",
+                        format!(
+                            "after task {name}: CA {ca} did not receive \
+                             entitlements from parent {parent} in this \
+                             exchange ({}), yet the entitlements in the \
+                             status view changed from {} to {}",
+                            if outcome == Some(false) { "it failed" }
+                            else { "it sent open requests" },
+                            brief(&before), brief(&shown)
+                        )
+                    );
+                }
+            }
+        }
+        _ => { }
+    }
+    r.ext.c19.classes_shown.insert(key, shown);
+}
+
+/// Class names and resources, for messages.
+fn brief(classes: &Value) -> String {
+    let items: Vec<String> = classes.as_array().map(|list| {
+        list.iter().map(|c| format!(
+            "{}:{} ({} issued, until {})",
+            c.get("class_name").and_then(|n| n.as_str()).unwrap_or("?"),
+            c.get("resource_set").map(|r| r.to_string()).unwrap_or_default(),
+            c.get("issued_certs").and_then(|i| i.as_array())
+                .map(|i| i.len()).unwrap_or(0),
+            c.get("not_after").map(|r| r.to_string()).unwrap_or_default(),
+        )).collect()
+    }).unwrap_or_default();
+    format!("[{}]", items.join("; "))
 }
